@@ -466,6 +466,8 @@ class Interp:
         last2 = "::".join(segs[-2:])
         if last2 in self.consts:
             return self.consts[last2]
+        if p in self.contracts or last2 in self.contracts:
+            return VOpaque("fn:" + last2)      # a function named as a value (e.g. passed to `.map`)
         ENUMS = ("Error", "PlonkVersion", "Selector", "WiredWitness")
         if segs[0] in ENUMS or (len(segs) >= 2 and segs[-2] in ENUMS):
             return VOpaque(last2)
@@ -506,6 +508,18 @@ class Interp:
             self.assign(e["l"], nv, env)
             return UNIT
         l = self.expr(e["l"], env)
+        if op in ("||", "&&"):
+            # short-circuit semantics: the right operand is evaluated only if the left one does not decide
+            if isinstance(l, bool):
+                if (op == "||" and l) or (op == "&&" and not l):
+                    return l
+                return self.expr(e["r"], env)
+            self.path_conds.append((l, op == "&&"))
+            try:
+                r = self.expr(e["r"], env)
+            finally:
+                self.path_conds.pop()
+            return VOpaque("or" if op == "||" else "and", [l, r])
         r = self.expr(e["r"], env)
         if op in ("+", "-", "*"):
             return self.arith(op, l, r, e)
@@ -521,10 +535,12 @@ class Interp:
             return l // r if op == "/" else l % r
         if op in ("/", "%"):
             return VOpaque("div" if op == "/" else "rem", [l, r])
-        if op in ("||", "&&"):
+        if op in ("||", "&&", "&", "|"):
             if isinstance(l, bool) and isinstance(r, bool):
-                return (l or r) if op == "||" else (l and r)
-            return VOpaque("or" if op == "||" else "and", [l, r])
+                return (l or r) if op in ("||", "|") else (l and r)
+            if isinstance(l, int) and isinstance(r, int):
+                return (l | r) if op == "|" else (l & r)
+            return VOpaque("or" if op in ("||", "|") else "and", [l, r])
         self.fail(e, f"binary operator {op}")
 
     def arith(self, op, l, r, node):
@@ -594,6 +610,8 @@ class Interp:
                 if not (0 <= lo <= hi <= len(b.items)):
                     raise OutsideFragment("slice out of bounds")
                 return VArr(b.items[lo:hi], "slice")
+        if isinstance(b, Sym) and (b.path.split(".")[-1] + "[]") in self.contracts:
+            return self.contracts[b.path.split(".")[-1] + "[]"](self, b, [i])
         if isinstance(b, Sym):
             if isinstance(i, int):
                 return Sym(f"{b.path}[{i}]")
@@ -601,6 +619,8 @@ class Interp:
                 return Sym(f"{b.path}[{i.path}]")
         if isinstance(b, (Sym, VOpaque)) and isinstance(i, VRange):
             return VOpaque("slice", [b, 0 if i.lo is None else i.lo, "end" if i.hi is None else i.hi])
+        if isinstance(b, VOpaque) and isinstance(i, (int, Sym, VOpaque)):
+            return VOpaque("idx", [b, i])
         if isinstance(b, VCoeffVec) and isinstance(i, int):
             self.fail(e, "reading a coefficient of a symbolic vector")
         self.fail(e, "indexing")
@@ -701,6 +721,20 @@ class Interp:
 
     def e_match(self, e, env):
         v = self.expr(e["e"], env)
+        arms = e["arms"]
+        if isinstance(v, (VOpaque, Sym)) and len(arms) == 2 and not (isinstance(v, VOpaque) and not v.args):
+            # `match OPT { Some(p) => E, None => return X }` on a symbolic option: one early-exit event, then E with p bound
+            some = [a for a in arms if a["pat"]["k"] == "tuple_struct" and a["pat"]["path"].split("::")[-1] == "Some"]
+            none = [a for a in arms if a["pat"]["k"] in ("path", "ident") and (a["pat"].get("path") or a["pat"].get("name", "")).split("::")[-1] == "None"]
+            if len(some) == 1 and len(none) == 1 and some[0]["guard"] is None and none[0]["guard"] is None:
+                try:
+                    self.expr(none[0]["body"], dict_child(env))
+                    self.fail(e, "None arm of a symbolic match does not diverge")
+                except Return as r:
+                    self.ctx.exits.append(("return_if_none", v, r.v))
+                env2 = dict_child(env)
+                self.bind(some[0]["pat"]["elems"][0], VOpaque("some_of", [v]), env2)
+                return self.expr(some[0]["body"], env2)
         if not isinstance(v, (VOpaque, bool, int)):
             self.fail(e, "match on a symbolic value")
         for arm in e["arms"]:
@@ -833,6 +867,10 @@ class Interp:
         name = "::".join(segs[-2:]) if len(segs) >= 2 else segs[0]
         if len(segs) == 1 and segs[0] in env and isinstance(env[segs[0]], VClosure):
             return self.call_closure(env[segs[0]], args)
+        for key in (path, name):
+            if key in self.contracts:
+                self.calls.append(key)
+                return self.contracts[key](self, None, args)
         # builtins
         if name in ("BlsScalar::zero",):
             return C(0)
@@ -905,8 +943,10 @@ class Interp:
         args = [self.expr(a, env) for a in e["args"]]
         for key in self.method_keys(e, recv, m):
             if key in self.contracts:
-                self.calls.append(key)
-                return self.contracts[key](self, recv, args)
+                r = self.contracts[key](self, recv, args)
+                if r is not NotImplemented:
+                    self.calls.append(key)
+                    return r
         # ---- scalar methods
         if m == "square" and not args:
             p = as_poly(recv)
@@ -1272,6 +1312,7 @@ def run_unit(root, unit, contracts, seed=0, perturb=None):
         paths.append(r)
     # ---- contract (single path)
     ctx2 = Ctx()
+    ctx2.is_contract = True
     it2 = Interp(ctx2, contracts, consts, src_name=f"contract of {unit.name}")
     args2 = [mk() for (_n, mk) in unit.params]
     recv2 = args2[0] if unit.params and unit.params[0][0] == "self" else None
@@ -1294,6 +1335,8 @@ def run_unit(root, unit, contracts, seed=0, perturb=None):
                 worst[k] = (False, f"output {k} missing in {'code' if k not in out1 else 'contract'}", None, False)
                 continue
             a, b = out1[k], out2[k]
+            if pcs:
+                a, b = _resolve_ite(a, pcs), _resolve_ite(b, pcs)
             ok, detail, cex = compare(a, b, seed)
             und = False
             if not ok and pcs:
@@ -1332,6 +1375,37 @@ def run_unit(root, unit, contracts, seed=0, perturb=None):
             ob["recipe"] = unit.replay
         obs.append(ob)
     return obs, calls
+
+
+def _resolve_ite(v, pcs):
+    """ite(c, a, b) -> a / b when the path decided c"""
+    dec = {}
+    for c, t in pcs:
+        dec[canon(c)] = t
+        if isinstance(c, VOpaque) and c.name == "not":
+            dec[canon(c.args[0])] = not t
+
+    def go(x):
+        if isinstance(x, VOpaque):
+            if x.name == "ite" and len(x.args) == 3:
+                k = canon(x.args[0])
+                if k in dec:
+                    return go(x.args[1] if dec[k] else x.args[2])
+            return VOpaque(x.name, [go(y) for y in x.args])
+        if isinstance(x, VArr):
+            return VArr([go(y) for y in x.items], x.kind)
+        if isinstance(x, VTuple):
+            return VTuple([go(y) for y in x.items])
+        if isinstance(x, list):
+            return [go(y) for y in x]
+        if isinstance(x, tuple):
+            return tuple(go(y) for y in x)
+        if isinstance(x, VOk):
+            return VOk(go(x.v))
+        if isinstance(x, VStruct):
+            return VStruct(x.name, {k: go(y) for k, y in x.fields.items()})
+        return x
+    return go(v)
 
 
 def _subst(v, sub):
@@ -1413,6 +1487,14 @@ def compare(a, b, seed):
         return compare(list(a), list(b), seed)
     if isinstance(a, VOk) and isinstance(b, VOk):
         return compare(a.v, b.v, seed)
+    if isinstance(a, VStruct) and isinstance(b, VStruct):
+        if a.name != b.name or sorted(a.fields) != sorted(b.fields):
+            return False, f"code: {a.name}{sorted(a.fields)}  contract: {b.name}{sorted(b.fields)}", None
+        for k in sorted(a.fields):
+            ok, det, cex = compare(a.fields[k], b.fields[k], seed)
+            if not ok:
+                return False, f"field {k}: {det}", cex
+        return True, None, None
     if isinstance(a, list) and isinstance(b, list):
         if len(a) != len(b):
             return False, f"sequence length {len(a)} (code) vs {len(b)} (contract);\ncode: {a[:40]}\ncontract: {b[:40]}", None
